@@ -383,6 +383,21 @@ def json_formatter(ctx, datefmt_kind):
     ctx.require(ok, "later sources override earlier ones: defaults < time < message < record data")
     if ctx.mode == "conc":
         ctx.require_concrete(isinstance(data, dict) and "\n" not in text, "json: a single JSON object")
+    # a second record through the SAME formatter, half a second later: nothing may be carried over
+    rec2 = logging.LogRecord("verif.monitor", logging.INFO, "file.py", 1, "second message", ({"only": 1},), None)
+    rec2.created = rec.created + 0.5
+    rec2.msecs = 750.0
+    rec.msecs = 250.0
+    reference = logging.Formatter(datefmt=datefmt if datefmt else None)
+    second = json.loads(fmt.format(rec2)) if ctx.mode == "conc" else None
+    if ctx.mode == "conc":
+        want2 = dict(json.loads(json.dumps({k: int(v) for k, v in defaults.items()})))
+        if datefmt_kind != 1:
+            want2["time"] = reference.formatTime(rec2, datefmt if datefmt else None)
+        want2["message"] = "second message"
+        want2["only"] = 1
+        ctx.require_concrete(second == want2, "json: every record carries its own time, message and data",
+                             detail={"got": second, "want": want2})
     ctx.require(not defaults or all(same(defaults[k], v) for k, v in list(defaults.items())), "defaults are not modified")
 
 
